@@ -99,6 +99,10 @@ def run(ctx) -> None:
     ctx.rule("C11.R5-cycle-detector-sees-every-edge", "propagate_replicate adds an edge to the graph it sorts topologically for every "
              "component reference: a reference is skipped only when it is not a component reference or when a missing "
              "producer is tolerated; the sorted graph is the one the edges were added to")
+    ctx.rule("C11.R6-undefined-variable-detector", "the detector for undefined variables is strict: interpolate swallows an unknown "
+             "variable only under ignore_errors or for 'replica' in primitive mode (the validator resolves in primitive mode), "
+             "the resolver calls fill_in without ignore_errors, and interpolate rescans until no reference is left "
+             "(the C04.R5/R8 analysis re-used)")
     ctx.assume("implicit exceptions (subscripts, library calls) outside try blocks are not modelled")
     ctx.assume("calls are resolved by name (self.<method> within the class, FlowIR.<method>, module functions)")
 
@@ -287,6 +291,13 @@ def run(ctx) -> None:
 
     # ---------------- R5 -------------------------------------------------------------------------------
     check_cycle_detector(ctx, fl)
+
+    # ---------------- R6 -------------------------------------------------------------------------------
+    from checks.c04 import undefined_variable_rules
+    before = len(ctx.obligations)
+    undefined_variable_rules(ctx, fl, fl.func("FlowIRConcrete.get_component_configuration"),
+                             "C11.R6-undefined-variable-detector", "C11.R6-undefined-variable-detector")
+    ctx.floor("C11.R6-undefined-variable-detector", len(ctx.obligations) - before, 8, "obligations on the undefined-variable detector")
 
     # ---------------- R3 -------------------------------------------------------------------------------
     dcs = fl.func("FlowIR.default_component_structure")
